@@ -189,18 +189,6 @@ def gen_case(rng, kind="valid"):
                 ds = [str(d), str(sp)]
             edges.append([s, t, w, ds])
         key = (lambda i: nodes[i]["cls"]) if vec else (lambda i: i)
-        if kind == "valid":
-            # undelayed edges only on sources without spread edges when dde_approx > 0; vectorized: at most one undelayed edge per
-            # buffered (merged) source (two pass-through slots of one chain are outside the model)
-            buffered = {key(e[0]) for e in edges if e[3] != "nokey"}
-            out, und = [], set()
-            for e in edges:
-                if e[3] == "nokey" and key(e[0]) in buffered:
-                    if dde or (vec and key(e[0]) in und):
-                        continue
-                    und.add(key(e[0]))
-                out.append(e)
-            edges = out
         if kind == "plain" and not (any(e[3] != "nokey" and len(e[3]) == 1 for e in edges) and any(e[3] != "nokey" and len(e[3]) == 2 for e in edges)):
             continue
         if kind == "plain":
@@ -267,7 +255,7 @@ def nontrivial(case):
     return len({tuple(e[3]) for e in case["edges"] if e[3] != "nokey" and len(e[3]) == 2}) >= 2
 
 # ---------------------------------------------------------------------------------------------- model side
-GUARDS = ["g_all_spread", "g_no_undelayed_kernel", "g_above_step", "g_rates_exact", "g_no_scalar_shared_chain", "g_contiguous_chains"]
+GUARDS = ["g_all_spread", "g_no_undelayed_kernel", "g_above_step", "g_rates_exact", "g_no_scalar_shared_chain"]
 HEADER = """From Coq Require Import List ZArith QArith Qcanon Bool Arith.
 From PV Require Import Ring Gamma Corr.
 Import ListNotations.
@@ -424,5 +412,4 @@ def check(ctx):
                    assumptions=["fixed-step Euler only (adaptive solvers are not compared: no exact arithmetic); the vector field at arbitrary "
                                 "chain states is not compared; Connectivity(delays, spread) is compared through the expansion of the population "
                                 "circuit into one edge per matrix entry (full matrices, one (delay, spread) per connection, no coupling functions)",
-                                "vectorized: two or more pass-through (undelayed) slots on one buffered source are outside the model",
                                 "guards: " + ", ".join(GUARDS)])
